@@ -353,13 +353,30 @@ func Strip(v ssa.Value) ssa.Value {
 // v itself, interface conversions of it, loads of a local variable all of whose reaching
 // stores store it, and phis all of whose edges are it.
 func SameAs(v ssa.Value) func(ssa.Value) bool {
+	// v itself may be a load of a local cell (a captured parameter): compare the stored value
+	canon := func(x ssa.Value) ssa.Value {
+		for i := 0; i < 4; i++ {
+			x = Strip(x)
+			ld, ok := x.(*ssa.UnOp)
+			if !ok || ld.Op != token.MUL {
+				return x
+			}
+			sts, zero, ok := ReachingStores(ld)
+			if !ok || zero || len(sts) != 1 {
+				return x
+			}
+			x = sts[0].Val
+		}
+		return x
+	}
+	vc := canon(v)
 	var same func(x ssa.Value, depth int) bool
 	same = func(x ssa.Value, depth int) bool {
 		if depth > 6 {
 			return false
 		}
 		x = Strip(x)
-		if x == Strip(v) {
+		if x == Strip(v) || canon(x) == vc {
 			return true
 		}
 		switch t := x.(type) {
